@@ -98,7 +98,8 @@ impl Slicing {
             .map(Variable::into_int)
             .transpose()
             .unwrap()
-            .map(|i| i as isize);
+            // isize::MIN cannot be negated by slyce; one more selects the same elements
+            .map(|i| (i as isize).max(isize::MIN + 1));
         Ok(start)
     }
 }
